@@ -280,6 +280,10 @@ func (e *Engine) boxHeapName(sort Sort) string { return "B:" + string(sort) }
 
 // region contents
 func (e *Engine) region(s *State, elem Sort, ref *Term) *Term {
+	if elem == SBV8 && ref.Op == "ctor" && ref.Name == "lit" && len(ref.Args) == 1 && ref.Args[0].Op == "intlit" && ref.Args[0].Val.Sign() > 0 {
+		// the bytes of a literal (package-level `[]byte("...")`): immutable
+		return e.tb.Select(e.tb.App("LIT", ArraySort(SRef, SBytes)), ref)
+	}
 	return e.tb.Select(e.elemHeap(s, elem), ref)
 }
 
@@ -526,6 +530,12 @@ func (e *Engine) globalValue(s *State, g *ssa.Global) *Term {
 	t := g.Type().(*types.Pointer).Elem()
 	if lit, ok := e.globalStringLit(g); ok && !e.globalAssigned(g) {
 		return e.strLit(lit)
+	}
+	if lit, ok := e.globalBytesLit(g); ok && !e.globalAssigned(g) {
+		// var x = []byte("literal"): a slice over literal memory (assumed never written through)
+		str := e.strLit(lit)
+		n := e.tb.BV(int64(len(lit)), 64)
+		return e.tb.Ctor("Slice", e.tb.Acc(str, 0), e.tb.BV(0, 64), n, n)
 	}
 	if spec, idx := e.findGlobalSpec(g); spec != nil && len(spec.Values) <= idx && len(spec.Values) == 0 && !e.globalAssigned(g) {
 		// declared without initialiser: the zero value (package-level variables are assumed immutable)
